@@ -1156,7 +1156,7 @@ def _run(chk, rng, base, n_layouts, n_val, n_fac, n_ser, n_prim):
     # ---- corpus first (regression layout of the repaired prefix defect, the known finding's witness)
     for name, doc in load_corpus():
         c = doc["case"]
-        if c.get("op") in ("vpath", "blseq", "collect"):
+        if c.get("op") in ("vpath", "blseq", "collect", "collect-hist"):
             continue                    # run at the head of their own streams
         lay = c["layout"]
         case = dict((k, v) for k, v in c.items() if k != "layout")
@@ -1343,6 +1343,7 @@ def _run(chk, rng, base, n_layouts, n_val, n_fac, n_ser, n_prim):
     run_hydrate_stream(chk, rng, base, 60 if chk.tier == "quick" else 1200)
     run_apply_blacklist(chk, rng)
     run_collect_stream(chk, rng, 40 if chk.tier == "quick" else 300)
+    run_collect_history_stream(chk, rng, 8 if chk.tier == "quick" else 120)
 
 
 def witness_dotdot(base):
@@ -1565,6 +1566,7 @@ def collect_universe(n):
     u["C:own_each_cmd:e1"] = (imp + ".own_each_cmd", reg + ".own_each_cmd", "cmd", "/bin/echo each e1.log")
     u["C:own_each_cmd:e2"] = (imp + ".own_each_cmd", reg + ".own_each_cmd", "cmd", "/bin/echo each e2.log")
     u["C:own_args"] = (imp + ".own_args", reg + ".own_args", "cmd", "/bin/echo args xyz")
+    u["C:own_date"] = (imp + ".date", reg + ".date", "cmd", "/bin/echo own_date_marker")
     # first_file(["/etc/none", "/etc/own_b.conf", "/etc/own_c.conf"]): the first allowed existing one
     u["F:own_first:b"] = (imp + ".own_first", reg + ".own_first", "first", "/etc/own_b.conf")
     u["F:own_first:c"] = (imp + ".own_first", reg + ".own_first", "first", "/etc/own_c.conf")
@@ -1591,6 +1593,28 @@ def gen_collect_case(rng, n):
     if mode in ("literal", "mixed"):
         files += pick(lit_f, [1, 2, 3])
         cmds += pick(lit_c, [0, 1, 2])
+    comps_ = list(comps_)
+    if rng.random() < 0.4:
+        # entries that SHARE A SHORT NAME: a registry point and its implementation, the same component twice, a symbolic name plus
+        # another component with that last segment
+        for _ in range(rng.choice([1, 1, 2])):
+            eid = rng.choice(sorted(u))
+            comp, point = u[eid][0], u[eid][1]
+            how = rng.choice(["both", "both-rev", "twice", "point", "sym+own", "two-dates"])
+            if how == "both":
+                comps_ += [point, comp]
+            elif how == "both-rev":
+                comps_ += [comp, point]
+            elif how == "twice":
+                comps_ += [comp, comp]
+            elif how == "point":
+                comps_ += [point]
+            elif how == "sym+own":
+                files.append("date")
+                comps_ += ["harness.c06.C06Impl%d.date" % n]
+            else:
+                comps_ += ["insights.specs.default.DefaultSpecs.date", "harness.c06.C06Impl%d.date" % n] if rng.random() < 0.5 else \
+                          ["harness.c06.C06Reg%d.date" % n, "insights.specs.Specs.date", "harness.c06.C06Impl%d.date" % n]
     return {"op": "collect", "n": n, "files": sorted(set(files)), "commands": sorted(set(cmds)), "components": comps_,
             "in_manifest": rng.random() < 0.3, "manifest_form": rng.choice(["dict", "dict", "yaml", "file"])}
 
@@ -1652,12 +1676,34 @@ def sect_enc(v):
     return "!"
 
 
+_SPECS_MADE = set()
+_PROBE = {}
+
+
+def watch_names(n):
+    u = collect_universe(n)
+    return sorted(set([v[0] for v in u.values()] + [v[1] for v in u.values()] + ["harness.c06.C06Impl%d.items" % n]))
+
+
+def enabled_snapshot(n):
+    """names (implementations, registry points) whose component is DISABLED right now"""
+    out = []
+    for name in watch_names(n):
+        c = dr.get_component_by_name(name)
+        if c is not None and not dr.is_enabled(c):
+            out.append(name)
+    return out
+
+
 def _collect_specs(n):
     """a fresh SpecSet pair (registry points + implementations over the scratch root), reachable by name"""
     mod = sys.modules[__name__]
     reg_name, imp_name = "C06Reg%d" % n, "C06Impl%d" % n
+    if n in _SPECS_MADE:                      # a history of collect() calls re-uses its SpecSet
+        return getattr(mod, reg_name), getattr(mod, imp_name)
+    _SPECS_MADE.add(n)
     pts = {"__module__": __name__}
-    for k in ("own_file", "own_first", "own_cmd", "own_args"):
+    for k in ("own_file", "own_first", "own_cmd", "own_args", "date"):
         pts[k] = sf.RegistryPoint()
     for k in ("own_glob", "own_each", "own_each_cmd"):
         pts[k] = sf.RegistryPoint(multi_output=True)
@@ -1669,11 +1715,18 @@ def _collect_specs(n):
 
     def argsrc(broker):
         return "xyz"
+    def probe(broker):
+        # the enabled flags AS THEY ARE WHILE DATASOURCES RUN
+        _PROBE["snap"] = enabled_snapshot(n)
+        return "probe"
     items = datasource(HostContext)(items)
     argsrc = datasource(HostContext)(argsrc)
+    probe = datasource(HostContext)(probe)
     imp = sf.SpecSetMeta(imp_name, (reg,), {
         "__module__": __name__,
-        "items": items, "argsrc": argsrc,
+        "items": items, "argsrc": argsrc, "probe": probe,
+        # a component that shares its LAST NAME SEGMENT with insights.specs.default.DefaultSpecs.date
+        "date": sf.simple_command("/bin/echo own_date_marker"),
         "own_file": sf.simple_file("/etc/own_a.conf", context=HostContext),
         "own_glob": sf.glob_file("/opt/*.conf", context=HostContext),
         "own_first": sf.first_file(["/etc/none", "/etc/own_b.conf", "/etc/own_c.conf"], context=HostContext),
@@ -1686,8 +1739,9 @@ def _collect_specs(n):
     return reg, imp
 
 
-def run_collect_case(base, case):
-    """one real collect.collect() in a scratch directory; returns the observation dict"""
+def run_collect_case(base, case, keep_state=False):
+    """one real collect.collect() in a scratch directory; returns the observation dict.  keep_state: leave the process-wide
+    state (deny sets, BLACKLISTED_SPECS, enabled flags) as collect() left it -- the next call of a history sees it"""
     from collections import defaultdict
     import insights.specs.default  # noqa: F401
     n = case["n"]
@@ -1742,18 +1796,24 @@ def run_collect_case(base, case):
     _AUD["base"] = work
     _AUD["events"] = []
     err = None
+    _PROBE.pop("snap", None)
+    disabled_seen = None
     audit(True)
     try:
         try:
             out, _errs = collect.collect(manifest=manifest, tmp_path=work, archive_name="arch", rm_conf=rm_conf, compress=False)
         except Exception as ex:
             out, err = os.path.join(work, "arch"), repr(ex)
+        disabled_seen = _PROBE.pop("snap", None)
+        if disabled_seen is None and err is None:
+            disabled_seen = ["<the probe datasource did not run>"] + enabled_snapshot(n)
     finally:
         audit(False)
-        clear_deny()
-        en = defaultdict(lambda: True)
-        en.update(saved)
-        dr.ENABLED = en
+        if not keep_state:
+            clear_deny()
+            en = defaultdict(lambda: True)
+            en.update(saved)
+            dr.ENABLED = en
     events = list(_AUD["events"])
     opened = sorted(set("/" + e[1][len(root):].lstrip("/") for e in events if e[0] == "open" and e[1].startswith(root + "/")))
     execd = sorted(set(" ".join(e[1]) for e in events if e[0] == "popen"))
@@ -1793,7 +1853,8 @@ def run_collect_case(base, case):
                         "leaked": bool(marker) and any(marker in c for f, c in persisted.items() if f.startswith("/data/"))}
     data_files = sorted(f for f in persisted if f.startswith(("/data/", "/meta_data/")))
     shutil.rmtree(work, ignore_errors=True)
-    return {"got": got, "specs": specs, "known": known, "error": err, "opened": opened, "execd": execd, "data_files": data_files}
+    return {"got": got, "specs": specs, "known": known, "error": err, "opened": opened, "execd": execd, "data_files": data_files,
+            "disabled": disabled_seen}
 
 
 def collect_child():
@@ -1805,7 +1866,22 @@ def collect_child():
     out = []
     try:
         for case in req["cases"]:
-            out.append(run_collect_case(base, case))
+            if case.get("op") == "collect-hist":
+                # HISTORY: several collect() calls in this ONE interpreter, nothing reset in between except what collect() resets
+                from collections import defaultdict
+                saved = dict(dr.ENABLED)
+                calls = []
+                try:
+                    for c in case["calls"]:
+                        calls.append(run_collect_case(base, c, keep_state=True))
+                finally:
+                    clear_deny()
+                    en = defaultdict(lambda: True)
+                    en.update(saved)
+                    dr.ENABLED = en
+                out.append({"calls": calls})
+            else:
+                out.append(run_collect_case(base, case))
     finally:
         audit(False)
         shutil.rmtree(base, ignore_errors=True)
@@ -1833,7 +1909,7 @@ def collect_expect(case, obs, bl_model, allow_model, baseline):
     first_done = False
     for eid in sorted(u):
         comp, point, kind, what = u[eid]
-        ok = comp not in disabled and allow_model[eid]
+        ok = comp not in disabled and point not in disabled and allow_model[eid]
         if comp.endswith((".own_each", ".own_each_cmd")) and ("harness.c06.C06Impl%d.items" % case["n"]) in disabled:
             ok = False
         if kind == "first":
@@ -1852,6 +1928,8 @@ def collect_oracle(case, obs):
         g = obs["got"][eid]
         short = comp[len(pre):] if comp.startswith(pre) else None
         why = None
+        if point in case["components"] and comp not in case["components"] and g["collected"]:
+            fails.append("collect(): registry point %s is listed under components, yet its content was persisted" % point)
         if comp in case["components"]:
             why = "component %s is listed under components" % comp
         elif short and (short in case["files"] or short in case["commands"]):
@@ -1876,6 +1954,124 @@ def collect_abort_oracle(case, o):
         return ["collect() raised %s on the deny list %r, yet datasources had run: %r opened %r executed %r persisted %r"
                 % (o["error"], case.get("malformed"), ran, o["opened"], o["execd"], o.get("data_files"))]
     return []
+
+
+def collect_flag_oracle(case, o):
+    """ORACLE (B): every component the deny list names -- under components, or by symbolic name under files / commands -- is
+    DISABLED while the datasources run (in every collection of a process, however often or under whatever short name it was named)"""
+    if o["error"] or o.get("disabled") is None:
+        return []
+    pre = "insights.specs.default.DefaultSpecs."
+    watch = set(watch_names(case["n"]))
+    named = [c for c in case["components"] if c in watch]
+    named += [pre + x for x in case["files"] + case["commands"] if (pre + x) in watch and x.isidentifier()]
+    left = sorted(set(named) - set(o["disabled"]))
+    if left:
+        return ["collect(): the deny list names %r, yet %r %s enabled while the datasources ran" % (sorted(set(named)), left,
+                                                                                                   "was" if len(left) == 1 else "were")]
+    return []
+
+
+def run_driver_cached_bl(c, f3):
+    """does this call's own list contain every literal entry that is in force (i.e. nothing an EARLIER call left is missing)?"""
+    return set(f3[0]) <= set(c["files"]) and set(f3[1]) <= set(c["commands"])
+
+
+def gen_history(rng, n):
+    kind = rng.choice(["same", "same", "different", "late", "late", "mixed"])
+    first = gen_collect_case(rng, n)
+    empty = dict(first, files=[], commands=[], components=[])
+    if kind == "same":
+        calls = [first] + [dict(first) for _ in range(rng.choice([1, 2]))]
+    elif kind == "different":
+        calls = [first, gen_collect_case(rng, n)] + ([gen_collect_case(rng, n)] if rng.random() < 0.4 else [])
+    elif kind == "late":
+        calls = [empty, first] + ([dict(first)] if rng.random() < 0.4 else [])
+    else:
+        calls = [first, empty, dict(first)]
+    for c in calls:
+        c["in_manifest"] = False
+    return {"op": "collect-hist", "n": n, "kind": kind, "calls": calls}
+
+
+def run_collect_history_stream(chk, rng, n_hist, n0=5000):
+    """HISTORIES of 2-3 collect() calls in ONE interpreter (same deny list, a different one, the deny list only on a later call).
+    In every collection: oracle on what was opened / executed / persisted and on the enabled flags; the outcome against the model
+    (disabled = a function of THIS call's deny list alone; literal deny sets accumulate, they are never reset) and, where no earlier
+    literal entry is missing from the current list, against the same collect() run on its own."""
+    from harness.common import dec
+    hists = [doc["case"] for _n, doc in load_corpus() if doc["case"].get("op") == "collect-hist"]
+    hists += [gen_history(rng, n0 + i) for i in range(n_hist)]
+    alone = [c for h in hists for c in h["calls"]]
+    cases = [{"op": "collect", "n": 0, "files": [], "commands": [], "components": [], "in_manifest": False}] + hists + alone
+    obs = run_collect_cases(cases)
+    if not isinstance(obs, list) or len(obs) != len(cases) or any("calls" not in o or len(o["calls"]) != len(h["calls"])
+                                                                  for h, o in zip(hists, obs[1:1 + len(hists)])):
+        chk.tie_broken("collect-child", "the child interpreter did not return one observation per call of every history", cases[0])
+        return
+    baseline = dict((k, v["collected"]) for k, v in obs[0]["got"].items())
+    alone_obs = obs[1 + len(hists):]
+    flat = [(hi, ki, c, o) for hi, (h, ho) in enumerate(zip(hists, obs[1:1 + len(hists)]))
+            for ki, (c, o) in enumerate(zip(h["calls"], ho["calls"]))]
+    # the model's process state after each collect() of the history (collectStep: flags reset, module-level deny sets kept)
+    hlines = []
+    for h, ho in zip(hists, obs[1:1 + len(hists)]):
+        specs = uniq(x for o in ho["calls"] for x in o["specs"])
+        known = uniq(x for o in ho["calls"] for x in o["known"])
+        hlines.append("\t".join(["hist", enc_strs(specs), enc_strs(known)] +
+                                [enc_strs(c[k]) for c in h["calls"] for k in ("files", "commands", "components")]))
+    accs = []
+    for h, m in zip(hists, run_driver("C06", hlines)):
+        states = m.split("|")
+        if len(states) != len(h["calls"]):
+            chk.tie_broken("hist-driver", "the driver answered %r for a history of %d calls" % (m, len(h["calls"])), h)
+            return
+        for c, st in zip(h["calls"], states):
+            f3 = [sorted(set(dec(x) for x in f.split(","))) if f != "-" else [] for f in st.split(" ")]
+            own = run_driver_cached_bl(c, f3)
+            accs.append((f3[0], f3[1], f3[2], own))
+    lines, idx = [], []
+    for fi, (hi, ki, c, o) in enumerate(flat):
+        u = collect_universe(c["n"])
+        for eid in sorted(u):
+            d = accs[fi][0] if u[eid][2] in ("file", "first") else accs[fi][1]
+            lines.append("deny\t%s\t%s" % (enc(u[eid][3]), enc_strs(d)))
+            idx.append((fi, eid))
+    allow = [dict() for _ in flat]
+    for (fi, eid), m in zip(idx, run_driver("C06", lines)):
+        allow[fi][eid] = m == "1"
+    c_cases, impl, model = [], [], []
+    for fi, (hi, ki, c, o) in enumerate(flat):
+        hcase = dict(hists[hi], upto=ki)
+        watch = set(watch_names(c["n"]))
+        exp = collect_expect(c, o, accs[fi], allow[fi], baseline)
+        got = "raised" if o["error"] else (sorted(k for k, v in o["got"].items() if v["collected"]), sorted(o.get("disabled") or []))
+        want = (sorted(k for k, v in exp.items() if v), sorted(set(accs[fi][2]) & watch))
+        if not accs[fi][3] and not o["error"]:
+            # literal entries of an EARLIER call that this call's list lacks: whether they still bind is a lifetime question the
+            # property does not decide (today they do); only the flags are compared, the oracle holds this call's own list
+            want = (got[0], want[1])
+            chk.count("collect-hist:earlier-literals-not-in-this-list")
+        for desc in collect_oracle(c, o) + collect_flag_oracle(c, o):
+            chk.failure("call %d of a history of %d collect() calls in one process (%s): %s" % (ki + 1, len(hists[hi]["calls"]),
+                                                                                               hists[hi].get("kind"), desc), hcase)
+        a = alone_obs[fi]
+        for desc in collect_oracle(c, a) + collect_flag_oracle(c, a):
+            chk.failure("the deny list of call %d of a history, given to collect() once more later in the same process: %s"
+                        % (ki + 1, desc), hcase)
+        if accs[fi][3] and not o["error"] and not a["error"]:
+            ga = (sorted(k for k, v in a["got"].items() if v["collected"]), sorted(a.get("disabled") or []))
+            if ga != got:
+                chk.failure("call %d of a history (%s) collected %r with %r disabled; the same collect() on its own collects %r with %r disabled"
+                            % (ki + 1, hists[hi].get("kind"), got[0], got[1], ga[0], ga[1]), hcase)
+            chk.count("collect-hist:compared-with-alone")
+        c_cases.append(hcase)
+        impl.append(got)
+        model.append(want)
+        chk.case(("collect-hist", hists[hi].get("kind"), ki, tuple(c["files"]), tuple(c["commands"]), tuple(c["components"])),
+                 nontrivial=ki > 0)
+        chk.count("collect-hist:%s:call%d" % (hists[hi].get("kind"), ki + 1))
+    chk.compare("collect() histories in one process(collected elements, disabled flags)", c_cases, impl, model)
 
 
 def run_collect_stream(chk, rng, n_cases):
@@ -1943,6 +2139,14 @@ def run_collect_stream(chk, rng, n_cases):
                 got_list = "abort"
         elif o["error"]:
             got_list = "raised"
+        if isinstance(got_list, list):
+            # the enabled flags while the datasources ran, against the model's `disabled` (every named component, registry point or
+            # implementation, first or repeated mention, whatever its short name)
+            watch = set(watch_names(case["n"]))
+            got_list = (got_list, sorted(o.get("disabled") or []))
+            want_list = (want_list, sorted(set(bls[ci][2]) & watch))
+            for desc in collect_flag_oracle(case, o):
+                chk.failure(desc, case)
         impl.append(got_list)
         model.append(want_list)
         for desc in collect_oracle(case, o):
@@ -2554,7 +2758,20 @@ def replay(data):
             print("collected with it:            ", sorted(k for k, v in obs[1]["got"].items() if v["collected"]))
             print("opened:", obs[1]["opened"], "executed:", obs[1]["execd"])
             print("collect() raised:", obs[1]["error"])
-            fails = [(d, c, None) for d in collect_oracle(c, obs[1]) + collect_abort_oracle(c, obs[1])]
+            print("disabled while the datasources ran:", obs[1].get("disabled"))
+            fails = [(d, c, None) for d in collect_oracle(c, obs[1]) + collect_abort_oracle(c, obs[1]) + collect_flag_oracle(c, obs[1])]
+        elif op == "collect-hist":
+            calls = c["calls"][:c.get("upto", len(c["calls"]) - 1) + 1]
+            obs = run_collect_cases([dict(c, calls=calls)] + [calls[-1]])
+            for ki, (cc, o) in enumerate(zip(calls, obs[0]["calls"])):
+                print("call %d: deny list files=%r commands=%r components=%r" % (ki + 1, cc["files"], cc["commands"], cc["components"]))
+                print("   collected:", sorted(k for k, v in o["got"].items() if v["collected"]), "disabled:", o.get("disabled"),
+                      "raised:", o["error"])
+                fails += [("call %d: %s" % (ki + 1, d), c, None) for d in collect_oracle(cc, o) + collect_flag_oracle(cc, o)]
+            a = obs[1]
+            print("last call once more, later in the same process: collected:", sorted(k for k, v in a["got"].items() if v["collected"]),
+                  "disabled:", a.get("disabled"))
+            fails += [("repeated later in the same process: %s" % d, c, None) for d in collect_oracle(calls[-1], a) + collect_flag_oracle(calls[-1], a)]
         elif op == "blseq":
             got, line, bf, exname = run_blseq_case(c)
             print("apply_blacklist ->", got, exname or "")
